@@ -272,6 +272,67 @@ def default_guess_sequences(run):
                             theorem="C01 (recovery; not a theorem)")
 
 
+def process_state_cases(run):
+    """what another curve did earlier in the process does not matter: after a
+    modulus-plateau search (and an E(delta) scan) on one curve, a FRESH curve
+    fitted with default minimiser options -- here the slow Nelder-Mead -- is
+    recovered, and its stored minimiser options are the defaults"""
+    mk = "hertz_para"
+    true = fits.default_params(mk, E=50000.0, contact_point=-1.5e-7,
+                               baseline=-3e-11)
+    cols = fits.model_curve(mk, true, n_app=300, n_ret=100)
+    fmax = float(np.max(np.abs(cols["force"])))
+    span = float(np.ptp(cols["tip position"]))
+
+    def nelder(tag):
+        run.case({"process-state": tag}, kind="process-state")
+        idnt = curves.make_indentation(cols)
+        try:
+            with warnings.catch_warnings():
+                warnings.simplefilter("ignore")
+                idnt.fit_model(model_key=mk, method="nelder")
+            fp = idnt.fit_properties
+            pf = fp["params_fitted"]
+            err = max(abs(pf["E"].value / true["E"] - 1),
+                      abs(pf["contact_point"].value
+                          - true["contact_point"]) / span,
+                      abs(pf["baseline"].value - true["baseline"]) / fmax)
+            return err, dict(fp.get("method_kws") or {})
+        except BaseException as e:
+            return f"{type(e).__name__}: {e}", None
+    e0, kws0 = nelder("before")
+    other = curves.make_indentation(fits.model_curve(
+        mk, fits.default_params(mk, E=3000.0, contact_point=1e-7),
+        n_app=200, n_ret=80))
+    try:
+        with warnings.catch_warnings():
+            warnings.simplefilter("ignore")
+            other.fit_model(model_key=mk, optimal_fit_edelta=True,
+                            optimal_fit_num_samples=10, range_x=[0, 2e-6])
+            other.compute_emodulus_mindelta()
+    except BaseException as e:
+        run.count("process-state-search-raised:" + type(e).__name__)
+    e1, kws1 = nelder("after-plateau-search-elsewhere")
+    if isinstance(e0, str) or e0 > TOL["nelder"][0]:
+        run.count("process-state-control-not-recovered(logged)")
+        return
+    why = None
+    if isinstance(e1, str):
+        why = "raised " + e1
+    elif e1 > TOL["nelder"][0]:
+        why = (f"recovery error {e1:.2e} (before the search elsewhere: "
+               f"{e0:.2e})")
+    elif kws1 != kws0:
+        why = (f"its stored method_kws are {kws1}, nobody passed any (before "
+               f"the search elsewhere: {kws0})")
+    if why:
+        run.failing(SITE, "process-state:nelder-after-search",
+                    "a fresh curve fitted with default Nelder-Mead options "
+                    "after a modulus-plateau search on another curve: " + why,
+                    payload={"kind": "rerun"},
+                    theorem="C01 (recovery; not a theorem)")
+
+
 def geometry_cases(run):
     """exact curves for a measurement geometry with gcf_k != 1 (the model
     sees gcf_k times the measured indentation), the contact point limited by
@@ -434,6 +495,7 @@ def check(run):
     refit_sequences(run)
     default_guess_sequences(run)
     geometry_cases(run)
+    process_state_cases(run)
     run.rule = ("ground truth from the implementation's own model functions: "
                 "5 models x parameters in bounds (E over 3.5 decades) x 50-"
                 "2000 points, uniform/jittered sampling x approach/retract x "
